@@ -178,4 +178,28 @@ def fuse_comprehensions(t):
             last_dom, last_conds = inner[3][-1]
             conds2 = tuple(last_conds) + tuple(subst(c, mp) for c in conds)
             return ("comp", t[1], elt, tuple(inner[3][:-1]) + ((last_dom, conds2),))
+    if t[0] == "comp" and len(t[3]) > 1:
+        # several generators: one that ranges over a comprehension ranges over that comprehension's own domain
+        for i, (dom, conds) in enumerate(t[3]):
+            inner = _unvar(dom)
+            if inner[0] == "comp" and inner[1] in ("list", "gen") and len(inner[3]) == 1:
+                rest = (t[2],) + tuple(conds) + tuple(x for g in t[3][i + 1:] for x in (g[0],) + tuple(g[1]))
+                bs = []
+                for b in subterms(rest, lambda x: x[0] == "bound" and x[3] == show(dom)):
+                    if b not in bs:
+                        bs.append(b)
+                if not bs:
+                    # the domain was rewritten after the comprehension was built: its bound is the one at this generator position whose
+                    # label matches no domain of the comprehension as it stands
+                    labels = {show(g[0]) for g in t[3]} | {show(g[0]) for g in inner[3]}
+                    for b in subterms(rest, lambda x: x[0] == "bound" and isinstance(x[1], int) and x[2] == i and x[3] not in labels):
+                        if b not in bs:
+                            bs.append(b)
+                if len(bs) > 1:
+                    continue
+                mp = {bs[0]: inner[2]} if bs else {}
+                idom, iconds = inner[3][0]
+                gens = list(t[3][:i]) + [(idom, tuple(iconds) + tuple(subst(c, mp) for c in conds))] \
+                    + [(subst(g[0], mp), tuple(subst(c, mp) for c in g[1])) for g in t[3][i + 1:]]
+                return fuse_comprehensions(("comp", t[1], subst(t[2], mp), tuple(gens)))
     return t
